@@ -93,6 +93,16 @@ UtcAccept(S, ev) == Has(S.sigs, ev.sig) /\ S.sigs[Idx(S.sigs, ev.sig)].st = 0
 RcMatches(accept, rc) == (accept /\ rc = 0) \/ (~accept /\ rc # 0)
 RcWhy(accept, rc) == IF RcMatches(accept, rc) THEN ""
                      ELSE IF accept THEN "a valid call was refused" ELSE "an invalid call was accepted"
+\* a refused writer call must not have touched the file: no backend I/O between call and return
+WrWhy(accept, ev) == IF RcWhy(accept, ev.rc) # "" THEN RcWhy(accept, ev.rc)
+                     ELSE IF ev.rc # 0 /\ ev.w[2] # ev.w[1] THEN "a refused call wrote to the file"
+                     ELSE ""
+\* strings that do not fit the writer's 1 MiB string block may be refused (then nothing changes)
+LongString(ev) == ev.maxlen >= 1048575
+DefWhy(accept, ev) == IF accept /\ LongString(ev) /\ ev.rc # 0
+                      THEN (IF ev.w[2] # ev.w[1] THEN "a refused call wrote to the file" ELSE "")
+                      ELSE WrWhy(accept, ev)
+
 
 --------------------------------------------------------------------------
 (* reader side *)
@@ -196,13 +206,13 @@ RdSignalVerdict(S, ev) ==
 --------------------------------------------------------------------------
 Verdict(S, ev) ==
     CASE ev.e = "WOpen"     -> IF ev.rc = 0 THEN "" ELSE "open for writing failed"
-      [] ev.e = "SourceDef" -> RcWhy(SourceAccept(S, ev), ev.rc)
-      [] ev.e = "SignalDef" -> RcWhy(SignalAccept(S, ev), ev.rc)
-      [] ev.e = "WrFsr"     -> RcWhy(FsrAccept(S, ev), ev.rc)
+      [] ev.e = "SourceDef" -> DefWhy(SourceAccept(S, ev), ev)
+      [] ev.e = "SignalDef" -> DefWhy(SignalAccept(S, ev), ev)
+      [] ev.e = "WrFsr"     -> WrWhy(FsrAccept(S, ev), ev)
       [] ev.e = "Omit"      -> RcWhy(FsrAccept(S, ev), ev.rc)
-      [] ev.e = "Anno"      -> RcWhy(AnnoAccept(S, ev), ev.rc)
-      [] ev.e = "Utc"       -> RcWhy(UtcAccept(S, ev), ev.rc)
-      [] ev.e = "UserData"  -> RcWhy(ev.st \in {1, 2, 3}, ev.rc)
+      [] ev.e = "Anno"      -> WrWhy(AnnoAccept(S, ev), ev)
+      [] ev.e = "Utc"       -> WrWhy(UtcAccept(S, ev), ev)
+      [] ev.e = "UserData"  -> WrWhy(ev.st \in {1, 2, 3}, ev)
       [] ev.e = "WClose"    -> IF ev.rc = 0 THEN "" ELSE "close failed"
       [] ev.e = "ROpen"     -> IF S.mode # "closed" THEN ""
                                ELSE IF ev.rc # 0 THEN "a properly closed file could not be opened"
